@@ -1,9 +1,10 @@
 #![no_main]
 // C14 beyond three edits: any JSON text that loads as a model must give indicators without crashing, and
 // after whatever happened a known good model must still give its baseline in the same process.
-use libfuzzer_sys::fuzz_target;
+use libfuzzer_sys::{fuzz_mutator, fuzz_target};
 use std::sync::OnceLock;
 mod common;
+mod json_mutator;
 
 static GOOD: OnceLock<(bemodel::Model, String)> = OnceLock::new();
 
@@ -50,3 +51,5 @@ fuzz_target!(|data: &[u8]| {
         Err(_) => common::class("rejected"),
     });
 });
+
+fuzz_mutator!(|data: &mut [u8], size: usize, max_size: usize, seed: u32| { json_mutator::mutate(data, size, max_size, seed) });
